@@ -236,6 +236,8 @@ func genMacro(t *rapid.T, macros []Macro, cost []int, fb [][]set) (Macro, int) {
 		m.B = append(m.B, g.stmt(1))
 	}
 	m.R = g.expr(2)
+	// one macro in four is printed as a single expression when its body happens to consist of declarations only
+	m.Inline = vgen.Pick(t, 4, "inline") == 0
 	return m, 1 + (6 - g.budget)
 }
 
